@@ -51,6 +51,26 @@ theorem erase_cancel (s : St) (id : Nat) : eraseW (s.cancel id) = (eraseW s).can
   simp only [Function.comp, cancelEntry, eraseEntry, eraseItem]
   by_cases h : e.1.id = id <;> simp [h]
 
+theorem erase_foldl_cancel (l : List Nat) : ∀ s : St, eraseW (l.foldl St.cancel s) = l.foldl St.cancel (eraseW s) := by
+  induction l with
+  | nil => intro s; rfl
+  | cons a l ih => intro s; rw [List.foldl_cons, List.foldl_cons, ih, erase_cancel]
+
+theorem erase_dispose (s : St) (id : Nat) : eraseW (s.dispose id) = (eraseW s).dispose id := by
+  simp only [St.dispose]
+  exact erase_foldl_cancel _ s
+
+theorem erase_attach (s : St) (id : Nat) (r : Option Nat) : eraseW (s.attachRet id r) = (eraseW s).attachRet id r := by
+  cases r with
+  | none => rfl
+  | some c =>
+    simp only [St.attachRet]
+    have hd : (eraseW s).dead = s.dead := rfl
+    rw [hd]
+    split
+    · rw [erase_dispose]; rfl
+    · rfl
+
 theorem exec_erase (w w' : Bool) (a : Act) : ∀ (s s' : St), a.All noRaise → eraseW s = eraseW s' →
     eraseW (exec w a s).1 = eraseW (exec w' a s').1 ∧ (exec w a s).2 = none ∧ (exec w' a s').2 = none := by
   induction a with
@@ -65,14 +85,14 @@ theorem exec_erase (w w' : Bool) (a : Act) : ∀ (s s' : St), a.All noRaise → 
   | cancel id rest ih =>
     intro s s' ha h
     simp only [exec]
-    exact ih _ _ ha.2 (by rw [erase_cancel, erase_cancel, h])
+    exact ih _ _ ha.2 (by rw [erase_dispose, erase_dispose, h])
   | stop rest ih =>
     intro s s' ha h
     simp only [exec]
     apply ih _ _ ha.2
     have := h
     simp only [eraseW] at this ⊢
-    injection this with h1 h2 h3 h4 h5 h6 h7 h8
+    injection this with h1 h2 h3 h4 h5 h6 h7 h8 h9 h10 h11
     simp [*]
   | sleep t rest ih =>
     intro s s' ha h
@@ -81,7 +101,7 @@ theorem exec_erase (w w' : Bool) (a : Act) : ∀ (s s' : St), a.All noRaise → 
     apply ih _ _ ha.2
     have := h
     simp only [eraseW] at this ⊢
-    injection this with h1 h2 h3 h4 h5 h6 h7 h8
+    injection this with h1 h2 h3 h4 h5 h6 h7 h8 h9 h10 h11
     simp [*]
   | ctl c rest ih =>
     intro s s' ha h
@@ -90,6 +110,7 @@ theorem exec_erase (w w' : Bool) (a : Act) : ∀ (s s' : St), a.All noRaise → 
     have h2 := hc s'.clock
     simp only [exec, h1, h2, Bool.false_eq_true, if_false]
     exact ih _ _ ha.2 h
+  | ret c => intro s s' _ h; exact ⟨h, rfl, rfl⟩
 
 def eraseIter : Iter → Iter
   | .exit s => .exit (eraseW s)
@@ -99,15 +120,19 @@ def eraseIter : Iter → Iter
 
 theorem erase_fields {s s' : St} (h : eraseW s = eraseW s') :
     s.clock = s'.clock ∧ s.enabled = s'.enabled ∧ s.spin = s'.spin ∧ s.log = s'.log ∧ s.skipped = s'.skipped ∧
-    s.hlog = s'.hlog ∧ s.nsched = s'.nsched ∧ eraseQ s.queue = eraseQ s'.queue := by
+    s.hlog = s'.hlog ∧ s.nsched = s'.nsched ∧ eraseQ s.queue = eraseQ s'.queue ∧
+    (s.links, s.dead, s.known) = (s'.links, s'.dead, s'.known) := by
   simp only [eraseW] at h
-  injection h with h1 h2 h3 h4 h5 h6 h7 h8
-  exact ⟨h1, h3, h4, h5, h6, h7, h8, h2⟩
+  injection h with h1 h2 h3 h4 h5 h6 h7 h8 h9 h10 h11
+  exact ⟨h1, h3, h4, h5, h6, h7, h8, h2, by rw [h9, h10, h11]⟩
 
 theorem erase_mk {s s' : St} (h1 : s.clock = s'.clock) (h3 : s.enabled = s'.enabled) (h4 : s.spin = s'.spin)
     (h5 : s.log = s'.log) (h6 : s.skipped = s'.skipped) (h7 : s.hlog = s'.hlog) (h8 : s.nsched = s'.nsched)
-    (h2 : eraseQ s.queue = eraseQ s'.queue) : eraseW s = eraseW s' := by
-  simp only [eraseW]; rw [h1, h2, h3, h4, h5, h6, h7, h8]
+    (h2 : eraseQ s.queue = eraseQ s'.queue) (hm : (s.links, s.dead, s.known) = (s'.links, s'.dead, s'.known)) :
+    eraseW s = eraseW s' := by
+  simp only [Prod.mk.injEq] at hm
+  obtain ⟨m1, m2, m3⟩ := hm
+  simp only [eraseW]; rw [h1, h2, h3, h4, h5, h6, h7, h8, m1, m2, m3]
 
 theorem eraseItem_fields {x x' : Item} (h : eraseItem x = eraseItem x') :
     x.id = x'.id ∧ x.due = x'.due ∧ x.body = x'.body ∧ x.cancelled = x'.cancelled ∧ x.seq = x'.seq := by
@@ -117,7 +142,7 @@ theorem eraseItem_fields {x x' : Item} (h : eraseItem x = eraseItem x') :
 
 theorem invoke_noRaise (cfg : Cfg) (x : Item) (s : St) (hx : x.body.All noRaise) :
     invoke cfg x s = ((exec x.wrapped x.body
-      { s with log := s.log ++ [{ id := x.id, at_ := s.clock, due := x.due, seq := x.seq }] }).1, none) := by
+      { s with log := s.log ++ [{ id := x.id, at_ := s.clock, due := x.due, seq := x.seq }] }).1.attachRet x.id x.body.retOf, none) := by
   have h := (exec_erase x.wrapped x.wrapped x.body _ _ hx (rfl : eraseW
     { s with log := s.log ++ [{ id := x.id, at_ := s.clock, due := x.due, seq := x.seq }] } = _)).2.1
   rcases invoke_cases cfg x s with ⟨_, h2⟩ | ⟨e, h1, _, _⟩ | ⟨e, h1, _, _⟩
@@ -132,25 +157,28 @@ theorem eraseItem_eq {x x' : Item} (h : eraseItem x = eraseItem x') : x' = { x w
 theorem fin_erase (cfg : Cfg) (tgt : Option Int) (t t' : St) (x : Item) (w' : Bool) (hxall : x.body.All noRaise)
     (ht : eraseW t = eraseW t') :
     eraseIter (fin cfg tgt t x) = eraseIter (fin cfg tgt t' { x with wrapped := w' }) := by
-  obtain ⟨g1, g3, g4, g5, g6, g7, g8, g2⟩ := erase_fields ht
+  obtain ⟨g1, g3, g4, g5, g6, g7, g8, g2, gm⟩ := erase_fields ht
   have hs0 : eraseW { t with log := t.log ++ [{ id := x.id, at_ := t.clock, due := x.due, seq := x.seq }] } =
       eraseW { t' with log := t'.log ++ [{ id := x.id, at_ := t'.clock, due := x.due, seq := x.seq }] } :=
-    erase_mk g1 g3 g4 (by simp only [g5, g1]) g6 g7 g8 g2
-  have he := (exec_erase x.wrapped w' x.body _ _ hxall hs0).1
-  obtain ⟨k1, k3, k4, k5, k6, k7, k8, k2⟩ := erase_fields he
+    erase_mk g1 g3 g4 (by simp only [g5, g1]) g6 g7 g8 g2 gm
+  have he0 := (exec_erase x.wrapped w' x.body _ _ hxall hs0).1
+  have he : eraseW ((exec x.wrapped x.body { t with log := t.log ++ [{ id := x.id, at_ := t.clock, due := x.due, seq := x.seq }] }).1.attachRet x.id x.body.retOf) =
+      eraseW ((exec w' x.body { t' with log := t'.log ++ [{ id := x.id, at_ := t'.clock, due := x.due, seq := x.seq }] }).1.attachRet x.id x.body.retOf) := by
+    rw [erase_attach, erase_attach, he0]
+  obtain ⟨k1, k3, k4, k5, k6, k7, k8, k2, km⟩ := erase_fields he
   simp only [fin]
   rw [invoke_noRaise cfg x t hxall, invoke_noRaise cfg { x with wrapped := w' } t' hxall]
   cases hc : x.cancelled with
   | true =>
     simp only [if_true, eraseIter, Iter.next.injEq]
-    exact ⟨by simp [eraseItem, hc], erase_mk g1 g3 (by simp only [g4]) g5 (by simp only [g6]) g7 g8 g2⟩
+    exact ⟨by simp [eraseItem, hc], erase_mk g1 g3 (by simp only [g4]) g5 (by simp only [g6]) g7 g8 g2 gm⟩
   | false =>
     simp only [Bool.false_eq_true, if_false, eraseIter, Iter.next.injEq]
-    exact ⟨by simp [eraseItem, hc], erase_mk k1 k3 (by simp only [k4]) k5 k6 k7 k8 k2⟩
+    exact ⟨by simp [eraseItem, hc], erase_mk k1 k3 (by simp only [k4]) k5 k6 k7 k8 k2 km⟩
 
 theorem iter_erase (cfg : Cfg) (tgt : Option Int) (s s' : St) (hq : QAll noRaise s) (h : eraseW s = eraseW s') :
     eraseIter (iter cfg tgt s) = eraseIter (iter cfg tgt s') := by
-  obtain ⟨h1, h3, h4, h5, h6, h7, h8, h2⟩ := erase_fields h
+  obtain ⟨h1, h3, h4, h5, h6, h7, h8, h2, hm⟩ := erase_fields h
   have hdq : (s.queue.dequeue? Item.due).map (fun xq => (eraseItem xq.1, eraseQ xq.2)) =
       (s'.queue.dequeue? Item.due).map (fun xq => (eraseItem xq.1, eraseQ xq.2)) := by
     rw [← dequeue_erase, ← dequeue_erase, h2]
@@ -187,14 +215,14 @@ theorem iter_erase (cfg : Cfg) (tgt : Option Int) (s s' : St) (hq : QAll noRaise
           simp only [tick, ← h1, ← h4]
           by_cases hlt : x.due > s.clock
           · simp only [hlt, if_true]
-            exact fin_erase cfg tgt _ _ x w' hxall (erase_mk rfl h3 rfl h5 h6 h7 h8 hq1)
+            exact fin_erase cfg tgt _ _ x w' hxall (erase_mk rfl h3 rfl h5 h6 h7 h8 hq1 hm)
           · simp only [hlt, if_false]
             by_cases hsp : (tgt.isNone && decide (s.spin > cfg.maxSpin)) = true
             · simp only [hsp, if_true]
               by_cases hdl : cfg.spinDeadlock = true
               · simp [hdl, eraseIter, h]
               · simp only [hdl]
-                exact fin_erase cfg tgt _ _ x w' hxall (erase_mk rfl h3 rfl h5 h6 h7 h8 hq1)
+                exact fin_erase cfg tgt _ _ x w' hxall (erase_mk rfl h3 rfl h5 h6 h7 h8 hq1 hm)
             · simp only [hsp]
-              exact fin_erase cfg tgt _ _ x w' hxall (erase_mk rfl h3 rfl h5 h6 h7 h8 hq1)
+              exact fin_erase cfg tgt _ _ x w' hxall (erase_mk rfl h3 rfl h5 h6 h7 h8 hq1 hm)
 end C42
